@@ -1127,11 +1127,16 @@ def paramName3 {V : Type} (cparams : List (String × PRef3 V)) : PRef3 V → Str
   | .val p => p.name
   | .ref _ n => match alookup n cparams with | some (.val q) => q.name | _ => ""
 
-/-- FromV3Operation fails with "could not find a name for request body": the operation has an inline request
-    body that does not carry its original name (c26cd6a; what formDataBody builds never does) and parameters
-    named `body` and `requestBody` -/
+/-- needsBodyName (c26cd6a, bfa9f46): FromV3Operation needs the free name only for an inline request body that
+    does not carry its original name and has a media type that is not a form media type -/
+def needsBodyName {V : Type} : Option (BRef3 V) → Bool
+  | some (.val b) => !b.origName && b.mimes.any (fun m => !isFormMime m)
+  | _ => false
+
+/-- FromV3Operation fails with "could not find a name for request body": the name is needed and the parameters
+    are named `body` and `requestBody` -/
 def opNameClash {V : Type} (cparams : List (String × PRef3 V)) (o : Op3 V) : Bool :=
-  (match o.body with | some (.val b) => !b.origName | _ => false) && bodyParamNames.all (fun n => o.params.any (fun p => paramName3 cparams p == n))
+  needsBodyName o.body && bodyParamNames.all (fun n => o.params.any (fun p => paramName3 cparams p == n))
 
 /-- outcome of FromV3 -/
 inductive BackRes (V : Type) where
@@ -1510,5 +1515,18 @@ def docInputsBack {V : Type} (d : Doc2 V) : Bool :=
   d.responses.all (fun kr => respSimpleBack d.produces kr.2) &&
   d.defs.all (fun ks => defSimpleBack ks.2) &&
   (d.loc.host != "" && d.loc.schemes.all schemeOK)
+
+/-! ## §11 names of body parameters (FromV3Operation's error outcome) -/
+
+/-- a body parameter has a name (required by OpenAPI 2) -/
+def namedBody {V : Type} : PRef2 V → Bool
+  | .ref _ _ => true
+  | .val p => p.loc != "body" || p.name != ""
+
+/-- body parameters have names, and an operation with form parameters consumes form media types only -/
+def opNamed {V : Type} (dc : List String) (o : Op2 V) : Bool :=
+  o.params.all namedBody && ((formVals o.params).isEmpty || (effConsumes dc o).all isFormMime)
+
+def docNamed {V : Type} (d : Doc2 V) : Bool := d.paths.all (fun p => p.ops.all (opNamed d.consumes))
 
 end KinModel.Conv
